@@ -5933,6 +5933,73 @@ pub fn verif_checked_mul_FractionalNanosecond<R: RInto<ri32>>(x: ri32, rhs: R) -
     requires rhs.rinto_req(),
     ensures res.is_some() <==> in_FractionalNanosecond(x.val * rhs.rinto_spec().val), res.is_some() ==> res.unwrap().val == x.val * rhs.rinto_spec().val
 { unimplemented!() }
+pub type ZonedDayNanoseconds = ri64;
+pub open spec fn ZonedDayNanoseconds_MIN() -> int { 1000000000 }
+pub open spec fn ZonedDayNanoseconds_MAX() -> int { 604800000000000 }
+pub open spec fn in_ZonedDayNanoseconds(v: int) -> bool { 1000000000 <= v <= 604800000000000 }
+#[verifier::external_body]
+pub fn verif_try_rfrom_ZonedDayNanoseconds_8(r: ri8) -> (res: Result<ri64, Error>)
+    ensures res.is_ok() <==> in_ZonedDayNanoseconds(r.val as int), res.is_ok() ==> res.unwrap().val == r.val
+{ unimplemented!() }
+#[verifier::external_body]
+pub fn verif_try_rfrom_ZonedDayNanoseconds_16(r: ri16) -> (res: Result<ri64, Error>)
+    ensures res.is_ok() <==> in_ZonedDayNanoseconds(r.val as int), res.is_ok() ==> res.unwrap().val == r.val
+{ unimplemented!() }
+#[verifier::external_body]
+pub fn verif_try_rfrom_ZonedDayNanoseconds_32(r: ri32) -> (res: Result<ri64, Error>)
+    ensures res.is_ok() <==> in_ZonedDayNanoseconds(r.val as int), res.is_ok() ==> res.unwrap().val == r.val
+{ unimplemented!() }
+#[verifier::external_body]
+pub fn verif_try_rfrom_ZonedDayNanoseconds_64(r: ri64) -> (res: Result<ri64, Error>)
+    ensures res.is_ok() <==> in_ZonedDayNanoseconds(r.val as int), res.is_ok() ==> res.unwrap().val == r.val
+{ unimplemented!() }
+#[verifier::external_body]
+pub fn verif_try_rfrom_ZonedDayNanoseconds_128(r: ri128) -> (res: Result<ri64, Error>)
+    ensures res.is_ok() <==> in_ZonedDayNanoseconds(r.val as int), res.is_ok() ==> res.unwrap().val == r.val
+{ unimplemented!() }
+#[verifier::external_body]
+pub fn verif_try_new_ZonedDayNanoseconds(v: i64) -> (res: Result<ri64, Error>)
+    ensures res.is_ok() <==> in_ZonedDayNanoseconds(v as int), res.is_ok() ==> res.unwrap().val == v
+{ unimplemented!() }
+#[verifier::external_body]
+pub fn verif_try_new128_ZonedDayNanoseconds(v: i128) -> (res: Result<ri64, Error>)
+    ensures res.is_ok() <==> in_ZonedDayNanoseconds(v as int), res.is_ok() ==> res.unwrap().val == v
+{ unimplemented!() }
+// `ZonedDayNanoseconds::MIN` / `ZonedDayNanoseconds::MAX` (associated consts of type i128)
+pub fn verif_MIN_ZonedDayNanoseconds() -> (r: i128) ensures r == ZonedDayNanoseconds_MIN() { 1000000000 }
+pub fn verif_MAX_ZonedDayNanoseconds() -> (r: i128) ensures r == ZonedDayNanoseconds_MAX() { 604800000000000 }
+// `x.try_checked_mul("what", rhs)` with x: ZonedDayNanoseconds -- Ok iff the exact product lies within ZonedDayNanoseconds::MIN..=MAX
+#[verifier::external_body]
+pub fn verif_try_checked_mul_ZonedDayNanoseconds<R: RInto<ri64>>(x: ri64, rhs: R) -> (res: Result<ri64, Error>)
+    requires rhs.rinto_req(),
+    ensures res.is_ok() <==> in_ZonedDayNanoseconds(x.val * rhs.rinto_spec().val), res.is_ok() ==> res.unwrap().val == x.val * rhs.rinto_spec().val
+{ unimplemented!() }
+// `x.try_checked_add/sub("what", rhs)` and `x.checked_add/sub/mul(rhs)` with x: ZonedDayNanoseconds -- fail iff the exact result leaves ZonedDayNanoseconds::MIN..=MAX
+#[verifier::external_body]
+pub fn verif_try_checked_add_ZonedDayNanoseconds<R: RInto<ri64>>(x: ri64, rhs: R) -> (res: Result<ri64, Error>)
+    requires rhs.rinto_req(),
+    ensures res.is_ok() <==> in_ZonedDayNanoseconds(x.val + rhs.rinto_spec().val), res.is_ok() ==> res.unwrap().val == x.val + rhs.rinto_spec().val
+{ unimplemented!() }
+#[verifier::external_body]
+pub fn verif_try_checked_sub_ZonedDayNanoseconds<R: RInto<ri64>>(x: ri64, rhs: R) -> (res: Result<ri64, Error>)
+    requires rhs.rinto_req(),
+    ensures res.is_ok() <==> in_ZonedDayNanoseconds(x.val - rhs.rinto_spec().val), res.is_ok() ==> res.unwrap().val == x.val - rhs.rinto_spec().val
+{ unimplemented!() }
+#[verifier::external_body]
+pub fn verif_checked_add_ZonedDayNanoseconds<R: RInto<ri64>>(x: ri64, rhs: R) -> (res: Option<ri64>)
+    requires rhs.rinto_req(),
+    ensures res.is_some() <==> in_ZonedDayNanoseconds(x.val + rhs.rinto_spec().val), res.is_some() ==> res.unwrap().val == x.val + rhs.rinto_spec().val
+{ unimplemented!() }
+#[verifier::external_body]
+pub fn verif_checked_sub_ZonedDayNanoseconds<R: RInto<ri64>>(x: ri64, rhs: R) -> (res: Option<ri64>)
+    requires rhs.rinto_req(),
+    ensures res.is_some() <==> in_ZonedDayNanoseconds(x.val - rhs.rinto_spec().val), res.is_some() ==> res.unwrap().val == x.val - rhs.rinto_spec().val
+{ unimplemented!() }
+#[verifier::external_body]
+pub fn verif_checked_mul_ZonedDayNanoseconds<R: RInto<ri64>>(x: ri64, rhs: R) -> (res: Option<ri64>)
+    requires rhs.rinto_req(),
+    ensures res.is_some() <==> in_ZonedDayNanoseconds(x.val * rhs.rinto_spec().val), res.is_some() ==> res.unwrap().val == x.val * rhs.rinto_spec().val
+{ unimplemented!() }
 #[allow(non_camel_case_types)]
 pub trait TryRInto_SpanYears: Sized {
     spec fn try_rinto_val(self) -> int;
@@ -6338,6 +6405,7 @@ pub const NANOS_PER_MINUTE: Constant = Constant(60_000_000_000);
 pub const NANOS_PER_HOUR: Constant = Constant(3_600_000_000_000);
 pub const NANOS_PER_CIVIL_DAY: Constant = Constant(86_400_000_000_000);
 pub const NANOS_PER_CIVIL_WEEK: Constant = Constant(604_800_000_000_000);
+// (the next six are read off src/util/t.rs:426-479; NOT yet in the Kani harness model_constants -- to be added there)
 pub const MICROS_PER_MILLI: Constant = Constant(1_000);
 pub const MILLIS_PER_SECOND: Constant = Constant(1_000);
 pub const SECONDS_PER_MINUTE: Constant = Constant(60);
@@ -6370,6 +6438,8 @@ pub open spec fn unit_ns(u: Unit) -> int {
               Unit::Minute => 60_000_000_000, Unit::Hour => 3_600_000_000_000, Unit::Day => 86_400_000_000_000, Unit::Week => 604_800_000_000_000,
               _ => 0 }
 }
+/// the rounding increment in nanoseconds: `increment` units of `smallest` (a name for the product, so that proofs can keep it folded)
+pub open spec fn inc_ns(smallest: Unit, increment: int) -> int { unit_ns(smallest) * increment }
 
 // ---- the abstract value of a span: ten signed integers (definitions of span.vrs, C12) ----------------------------------------
 pub struct SV { pub y: int, pub mo: int, pub w: int, pub d: int, pub h: int, pub mi: int, pub s: int, pub ms: int, pub us: int, pub ns: int }
@@ -6655,9 +6725,9 @@ impl RoundMode {
     #[verifier::external_body]
     pub fn round_by_unit_in_nanoseconds(self, quantity: impl RInto<NoUnits128>, unit: Unit, increment: impl RInto<NoUnits128>) -> (res: NoUnits128)
         requires quantity.rinto_req(), increment.rinto_req(), unit_rank(unit) <= 7,
-                 0 < unit_ns(unit) * increment.rinto_spec().val <= 0x7fff_ffff_ffff_ffff,
+                 0 < inc_ns(unit, increment.rinto_spec().val as int) <= 0x7fff_ffff_ffff_ffff,
                  -0x4000_0000_0000_0000_0000_0000 <= quantity.rinto_spec().val <= 0x4000_0000_0000_0000_0000_0000,
-        ensures round_ok(self, quantity.rinto_spec().val as int, unit_ns(unit) * increment.rinto_spec().val, res.val as int)
+        ensures round_ok(self, quantity.rinto_spec().val as int, inc_ns(unit, increment.rinto_spec().val as int), res.val as int)
     { unimplemented!() }
 }
 
@@ -6691,10 +6761,8 @@ pub open spec fn clamp_ok(rel: Relative, s: SV, j: int, amount: int) -> bool {
     in_limit(j, sv_get(s, j) + amount) && rel_add_ok(rel, s) && rel_add_ok(rel, spec_set(s, j, sv_get(s, j) + amount))
 }
 // ---- names used by the contracts of the two nudges ------------------------------------------------------------------------
-/// the rounding increment in nanoseconds
-pub open spec fn inc_ns(smallest: Unit, increment: NoUnits128) -> int { unit_ns(smallest) * increment.val }
 /// Nudge::relative_invariant: the rounded count of nanoseconds
-pub open spec fn ri_rnd(balanced: Span, smallest: Unit, increment: NoUnits128, mode: RoundMode) -> int { rnd(mode, inv_ns(span_view(balanced)), inc_ns(smallest, increment)) }
+pub open spec fn ri_rnd(balanced: Span, smallest: Unit, increment: NoUnits128, mode: RoundMode) -> int { rnd(mode, inv_ns(span_view(balanced)), inc_ns(smallest, increment.val as int)) }
 /// Nudge::relative_zoned_time.  cal = years..days of `balanced`; cal1 = the same with one more day in the span's direction;
 /// r0, r1 = the instants reference + cal, reference + cal1 (so r1 - r0 is the real length of that day, negative for a negative span)
 pub open spec fn zt_rel(rs: RelativeZoned) -> Relative { Relative::Zoned(rs) }
@@ -7025,22 +7093,22 @@ pub fn relative_invariant(
     ) -> (r: Result<Nudge, Error>)
     requires
         span_wf(balanced), unit_rank(smallest) <= 7,
-    0 < inc_ns(smallest, increment) <= 0x7fff_ffff_ffff_ffff,
+    0 < inc_ns(smallest, increment.val as int) <= 0x7fff_ffff_ffff_ffff,
     in_UnixNanoseconds(relative_end.val as int),
     ensures
-        round_ok(mode, inv_ns(span_view(balanced)), inc_ns(smallest, increment), ri_rnd(balanced, smallest, increment, mode)),
+        round_ok(mode, inv_ns(span_view(balanced)), inc_ns(smallest, increment.val as int), ri_rnd(balanced, smallest, increment, mode)),
     r.is_ok() <==> in_limit(top_rank(largest), quot(ri_rnd(balanced, smallest, increment, mode), top_rank(largest))),
     // years and months are kept; days and the sub-day units are those of the balanced form of the rounded count
     r.is_ok() ==> span_wf(r.unwrap().span) && span_view(r.unwrap().span).y == span_view(balanced).y && span_view(r.unwrap().span).mo == span_view(balanced).mo
         && sv_below(span_view(r.unwrap().span), 7) == sv_below(bal(ri_rnd(balanced, smallest, increment, mode), top_rank(largest)), 7),
-    // conservation: the span's uniform units denote exactly the rounded count                                   *** FAILS: finding F-A ***
+    // conservation: the span's uniform units denote exactly the rounded count                                   *** FAILS: finding SR-1 ***
     r.is_ok() ==> inv_ns(span_view(r.unwrap().span)) == ri_rnd(balanced, smallest, increment, mode),
     // (what the code does meet: conservation when the weeks of `balanced` are the weeks of the balanced rounded count)
     r.is_ok() && span_view(balanced).w == bal(ri_rnd(balanced, smallest, increment, mode), top_rank(largest)).w ==> inv_ns(span_view(r.unwrap().span)) == ri_rnd(balanced, smallest, increment, mode),
     r.is_ok() ==> r.unwrap().rounded_relative_end.val == relative_end.val + (ri_rnd(balanced, smallest, increment, mode) - inv_ns(span_view(balanced))),
     r.is_ok() ==> r.unwrap().grew_big_unit == (isgn(quot(ri_rnd(balanced, smallest, increment, mode), 6) - quot(inv_ns(span_view(balanced)), 6)) == sv_sign(span_view(balanced))),
 {
-        hide(round_ok); hide(tdiv); hide(trem); hide(spec_set);
+        hide(round_ok); hide(inc_ns); hide(tdiv); hide(trem); hide(spec_set);
         proof { lemma_inv_bound(span_view(balanced)); lemma_set_all(); }
 
         
@@ -7054,8 +7122,8 @@ pub fn relative_invariant(
             increment,
         );
         proof {
-            lemma_rnd(mode, inv_ns(span_view(balanced)), inc_ns(smallest, increment), rounded_nanos.val as int);
-            lemma_round_sign(mode, inv_ns(span_view(balanced)), inc_ns(smallest, increment), rounded_nanos.val as int);
+            lemma_rnd(mode, inv_ns(span_view(balanced)), inc_ns(smallest, increment.val as int), rounded_nanos.val as int);
+            lemma_round_sign(mode, inv_ns(span_view(balanced)), inc_ns(smallest, increment.val as int), rounded_nanos.val as int);
         }
 
         let span = Span::from_invariant_nanoseconds(largest, rounded_nanos)
@@ -7087,31 +7155,31 @@ pub fn relative_zoned_time(
     ) -> (r: Result<Nudge, Error>)
     requires
         span_wf(balanced), unit_rank(smallest) <= 5,
-    0 < inc_ns(smallest, increment) <= 86_400_000_000_000,
+    0 < inc_ns(smallest, increment.val as int) <= 86_400_000_000_000,
     ensures
         // (e) both roundings are the mode-prescribed ones
-    round_ok(mode, time_ns(span_view(balanced)), inc_ns(smallest, increment), zt_x1(balanced, inc_ns(smallest, increment), mode)),
-    zt_ok(*relative_start, balanced) && zt_grow(*relative_start, balanced, inc_ns(smallest, increment), mode)
-        ==> round_ok(mode, zt_beyond(*relative_start, balanced, inc_ns(smallest, increment), mode), inc_ns(smallest, increment), zt_fin(*relative_start, balanced, inc_ns(smallest, increment), mode)),
-    r.is_ok() <==> zt_ok(*relative_start, balanced) && in_SpanHours(quot(zt_fin(*relative_start, balanced, inc_ns(smallest, increment), mode), 5)),
+    round_ok(mode, time_ns(span_view(balanced)), inc_ns(smallest, increment.val as int), zt_x1(balanced, inc_ns(smallest, increment.val as int), mode)),
+    zt_ok(*relative_start, balanced) && zt_grow(*relative_start, balanced, inc_ns(smallest, increment.val as int), mode)
+        ==> round_ok(mode, zt_beyond(*relative_start, balanced, inc_ns(smallest, increment.val as int), mode), inc_ns(smallest, increment.val as int), zt_fin(*relative_start, balanced, inc_ns(smallest, increment.val as int), mode)),
+    r.is_ok() <==> zt_ok(*relative_start, balanced) && in_SpanHours(quot(zt_fin(*relative_start, balanced, inc_ns(smallest, increment.val as int), mode), 5)),
     // (a) the sub-day part of the span is the final rounded count, balanced up to hours, and a whole multiple of the increment
-    r.is_ok() ==> span_wf(r.unwrap().span) && sv_below(span_view(r.unwrap().span), 6) == bal(zt_fin(*relative_start, balanced, inc_ns(smallest, increment), mode), 5),
-    r.is_ok() ==> time_ns(span_view(r.unwrap().span)) == zt_fin(*relative_start, balanced, inc_ns(smallest, increment), mode)
-        && zt_fin(*relative_start, balanced, inc_ns(smallest, increment), mode) % inc_ns(smallest, increment) == 0,
+    r.is_ok() ==> span_wf(r.unwrap().span) && sv_below(span_view(r.unwrap().span), 6) == bal(zt_fin(*relative_start, balanced, inc_ns(smallest, increment.val as int), mode), 5),
+    r.is_ok() ==> time_ns(span_view(r.unwrap().span)) == zt_fin(*relative_start, balanced, inc_ns(smallest, increment.val as int), mode)
+        && zt_fin(*relative_start, balanced, inc_ns(smallest, increment.val as int), mode) % inc_ns(smallest, increment.val as int) == 0,
     // (b) years, months and weeks are kept; days grow by one day in the span's direction exactly when rounding reached the end of the day
     r.is_ok() ==> span_view(r.unwrap().span).y == span_view(balanced).y && span_view(r.unwrap().span).mo == span_view(balanced).mo && span_view(r.unwrap().span).w == span_view(balanced).w,
-    //     (rounded_relative_end moves to r1 = reference + (days + sign), so the span must say the same)          *** FAILS: finding F-B ***
-    r.is_ok() ==> span_view(r.unwrap().span).d == (if zt_grow(*relative_start, balanced, inc_ns(smallest, increment), mode) { span_view(balanced).d + zt_sg(balanced) } else { span_view(balanced).d }),
+    //     (rounded_relative_end moves to r1 = reference + (days + sign), so the span must say the same)          *** FAILS: finding SR-2 ***
+    r.is_ok() ==> span_view(r.unwrap().span).d == (if zt_grow(*relative_start, balanced, inc_ns(smallest, increment.val as int), mode) { span_view(balanced).d + zt_sg(balanced) } else { span_view(balanced).d }),
     //     (what the code does meet: the same for positive spans and whenever no day is added)
-    r.is_ok() && (zt_sg(balanced) > 0 || !zt_grow(*relative_start, balanced, inc_ns(smallest, increment), mode))
-        ==> span_view(r.unwrap().span).d == (if zt_grow(*relative_start, balanced, inc_ns(smallest, increment), mode) { span_view(balanced).d + zt_sg(balanced) } else { span_view(balanced).d }),
+    r.is_ok() && (zt_sg(balanced) > 0 || !zt_grow(*relative_start, balanced, inc_ns(smallest, increment.val as int), mode))
+        ==> span_view(r.unwrap().span).d == (if zt_grow(*relative_start, balanced, inc_ns(smallest, increment.val as int), mode) { span_view(balanced).d + zt_sg(balanced) } else { span_view(balanced).d }),
     // (c) the instant reference + span
-    r.is_ok() ==> r.unwrap().rounded_relative_end.val == (if zt_grow(*relative_start, balanced, inc_ns(smallest, increment), mode) { zt_r1(*relative_start, balanced) } else { zt_r0(*relative_start, balanced) })
-        + zt_fin(*relative_start, balanced, inc_ns(smallest, increment), mode),
+    r.is_ok() ==> r.unwrap().rounded_relative_end.val == (if zt_grow(*relative_start, balanced, inc_ns(smallest, increment.val as int), mode) { zt_r1(*relative_start, balanced) } else { zt_r0(*relative_start, balanced) })
+        + zt_fin(*relative_start, balanced, inc_ns(smallest, increment.val as int), mode),
     // (d)
-    r.is_ok() ==> r.unwrap().grew_big_unit == zt_grow(*relative_start, balanced, inc_ns(smallest, increment), mode),
+    r.is_ok() ==> r.unwrap().grew_big_unit == zt_grow(*relative_start, balanced, inc_ns(smallest, increment.val as int), mode),
 {
-        hide(round_ok); hide(tdiv); hide(trem); hide(quot); hide(spec_set);
+        hide(round_ok); hide(inc_ns); hide(tdiv); hide(trem); hide(quot); hide(spec_set);
         proof { lemma_inv_bound(span_view(balanced)); lemma_set_all(); }
 
         let sign = balanced.get_sign_ranged();
@@ -7120,8 +7188,8 @@ pub fn relative_zoned_time(
         let mut rounded_time_nanos =
             mode.round_by_unit_in_nanoseconds(time_nanos, smallest, increment);
         proof {
-            lemma_rnd(mode, time_ns(span_view(balanced)), inc_ns(smallest, increment), rounded_time_nanos.val as int);
-            lemma_round_sign(mode, time_ns(span_view(balanced)), inc_ns(smallest, increment), rounded_time_nanos.val as int);
+            lemma_rnd(mode, time_ns(span_view(balanced)), inc_ns(smallest, increment.val as int), rounded_time_nanos.val as int);
+            lemma_round_sign(mode, time_ns(span_view(balanced)), inc_ns(smallest, increment.val as int), rounded_time_nanos.val as int);
         }
 
         let (relative0, relative1) = clamp_relative_span(
@@ -7144,8 +7212,8 @@ pub fn relative_zoned_time(
                     increment,
                 );
                 proof {
-                    lemma_rnd(mode, beyond_day_nanos.val as int, inc_ns(smallest, increment), rounded_time_nanos.val as int);
-                    lemma_round_sign(mode, beyond_day_nanos.val as int, inc_ns(smallest, increment), rounded_time_nanos.val as int);
+                    lemma_rnd(mode, beyond_day_nanos.val as int, inc_ns(smallest, increment.val as int), rounded_time_nanos.val as int);
+                    lemma_round_sign(mode, beyond_day_nanos.val as int, inc_ns(smallest, increment.val as int), rounded_time_nanos.val as int);
                 }
 
                 relative1 + rounded_time_nanos
@@ -7178,13 +7246,14 @@ pub fn round_span_invariant(
 ) -> (r: Result<Span, Error>)
     requires
         span_wf(span), unit_rank(smallest) <= 7, unit_rank(largest) <= 7,
-    0 < unit_ns(smallest) * increment.val <= 0x7fff_ffff_ffff_ffff,
+    0 < inc_ns(smallest, increment.val as int) <= 0x7fff_ffff_ffff_ffff,
     ensures
-        round_ok(mode, inv_ns(span_view(span)), unit_ns(smallest) * increment.val, rnd(mode, inv_ns(span_view(span)), unit_ns(smallest) * increment.val)),
-    r.is_ok() <==> in_limit(unit_rank(largest), quot(rnd(mode, inv_ns(span_view(span)), unit_ns(smallest) * increment.val), unit_rank(largest))),
-    r.is_ok() ==> span_wf(r.unwrap()) && balanced_as(span_view(r.unwrap()), rnd(mode, inv_ns(span_view(span)), unit_ns(smallest) * increment.val), unit_rank(largest)),
+        round_ok(mode, inv_ns(span_view(span)), inc_ns(smallest, increment.val as int), rnd(mode, inv_ns(span_view(span)), inc_ns(smallest, increment.val as int))),
+    r.is_ok() <==> in_limit(unit_rank(largest), quot(rnd(mode, inv_ns(span_view(span)), inc_ns(smallest, increment.val as int)), unit_rank(largest))),
+    r.is_ok() ==> span_wf(r.unwrap()) && span_view(r.unwrap()) == bal(rnd(mode, inv_ns(span_view(span)), inc_ns(smallest, increment.val as int)), unit_rank(largest)),
+    r.is_ok() ==> balanced_as(span_view(r.unwrap()), rnd(mode, inv_ns(span_view(span)), inc_ns(smallest, increment.val as int)), unit_rank(largest)),
 {
-    hide(round_ok); hide(tdiv); hide(trem); hide(quot);
+    hide(round_ok); hide(inc_ns); hide(tdiv); hide(trem); hide(quot);
 
     assert!(smallest <= Unit::Week);
     assert!(largest <= Unit::Week);
@@ -7193,7 +7262,7 @@ pub fn round_span_invariant(
 
     let rounded =
         mode.round_by_unit_in_nanoseconds(nanos, smallest, increment);
-    proof { lemma_rnd(mode, inv_ns(span_view(span)), unit_ns(smallest) * increment.val, rounded.val as int); }
+    proof { lemma_rnd(mode, inv_ns(span_view(span)), inc_ns(smallest, increment.val as int), rounded.val as int); }
 
     Span::from_invariant_nanoseconds(largest, rounded).verif_with_context()
 }
